@@ -71,6 +71,8 @@ package gff
 //@   requires w != nil && w.w != nil && f != nil && w.Width > 0
 //@   requires (typeis(f, *Feature) || typeis(f, *Region)) ==> ref(f) != 0
 //@   ensures [bytes] err == nil ==> n == emitted(w.w) - old(emitted(w.w))
+//@   ensures [rejects-only-empty] !w.header ==> startOf(f) >= endOf(f) && n == 0 && emitted(w.w) == old(emitted(w.w))
+//@   ensures [rejects-empty] startOf(f) >= endOf(f) ==> err != nil && n == 0 && w.header == old(w.header)
 //@   assigns w.header, emitted(w.w), fresh
 
 //@ func (*Writer).WriteMetaData
